@@ -17,7 +17,14 @@ import (
 	"time"
 )
 
-const Root = "/verif"
+// Root is the verification tree this process works in: $VERIF_ROOT (set by the
+// ./check script to its own directory), /verif by default.
+var Root = func() string {
+	if v := os.Getenv("VERIF_ROOT"); v != "" {
+		return v
+	}
+	return "/verif"
+}()
 
 // Evidence mirrors EVIDENCE.schema.json.
 type Evidence struct {
